@@ -46,6 +46,8 @@ func id[T any](x T) T        { return x }
 func dbl(x int) int          { return 2 * x }
 func sub(a, b int) int       { return a - b }
 func neg(a int) int          { return -a }
+func zero() int              { return 0 }
+func sum(xs ...int) int      { return len(xs) }
 func pick() func(int) int    { return dbl }
 func open() co.Iter[int]     { return Gen([]int{1}) }
 
@@ -104,6 +106,10 @@ func k11(args []string) {
 		{Req: "(k11 declared fewer sametype)", Code: "func(a, b int) int { return neg(a) }"},
 		{Req: "(k11 declared same othertype)", Code: "func(x int) any { return dbl(x) }"},
 		{Req: "(k11 declared same sametype)", Code: "func(a, b int) int { return sub(a, b) }"},
+		// no parameters, yet not the callee's type: the result type, variadicity
+		{Req: "(k11 declared same othertype)", Code: "func() any { return zero() }"},
+		{Req: "(k11 declared same othertype)", Code: "func() int { return sum() }"},
+		{Req: "(k11 declared same sametype)", Code: "func() int { return zero() }"},
 		// receivers of the iterator type that are not generated variables
 		{Req: "(k11 method-expr same sametype)", Code: "func() bool { return open().MoveNext() }"},
 		{Req: "(k11 method-uservar same sametype)", Code: "func() bool { return it.MoveNext() }"},
